@@ -10,6 +10,7 @@ import itertools
 import time
 
 import z3
+from pyvc.values import FA
 
 from .values import (PyV, NONE, BoolS, IntS, LATTICE, Ref, ClsRef, Sym, SymV, SymB, SymI, SymS,
                      Unsupported, lift, lower, as_z3, wrap_bool)
@@ -40,6 +41,17 @@ class SymSet:
     @staticmethod
     def fresh(state, hint):
         return SymSet(state.fresh_array(hint, PyV, BoolS))
+
+    @staticmethod
+    def comprehension(state, var, body, hint='setc'):
+        """{var | body}: a fresh characteristic array defined by a (pattern-friendly) axiom"""
+        m = state.fresh_array(hint, PyV, BoolS)
+        pats = [z3.Select(m, var)]
+        # when the body is a single array read that mentions the bound variable it is a second trigger
+        if z3.is_app(body) and body.decl().kind() == z3.Z3_OP_SELECT and not z3.is_quantifier(body):
+            pats.append(body)
+        state.assume(FA([var], z3.Select(m, var) == body, patterns=pats))
+        return SymSet(m)
 
     def contains(self, k):
         return z3.Select(self.mem, k)
@@ -94,11 +106,10 @@ class SymMap:
 
 class SymSeq:
     """list/tuple of PyV values: length + index array"""
-    __slots__ = ('len', 'arr')
-
     def __init__(self, length, arr):
         self.len = length
         self.arr = arr
+        self.source_set = None     # SymSet this sequence enumerates (when known)
 
     @staticmethod
     def empty():
@@ -163,7 +174,7 @@ class Obligation:
 # State
 # --------------------------------------------------------------------------------------
 class State:
-    def __init__(self, script=(), base_axioms=(), timeout_ms=4000, path_id=0):
+    def __init__(self, script=(), base_axioms=(), timeout_ms=1000, path_id=0):
         self.script = list(script)
         self.pos = 0
         self.taken = []
@@ -171,6 +182,7 @@ class State:
         self.heap = {}
         self.next_id = 1
         self.pc = []
+        self.assumed_ids = set()     # ids of pc entries that are assumptions (not branch decisions)
         self.effects = []
         self.obligations = []
         self.counter = itertools.count()
@@ -262,6 +274,7 @@ class State:
                 raise Infeasible()
             return
         self.pc.append(formula)
+        self.assumed_ids.add(formula.get_id())
         self.solver.add(formula)
 
     def feasible(self, extra=None):
@@ -287,7 +300,7 @@ class State:
             self.choice_log.append((label, i))
             g = alts[i]
             if not isinstance(g, bool):
-                self.assume(g)
+                self._decide(g)
             return i
         feas = []
         for i, g in enumerate(alts):
@@ -306,8 +319,12 @@ class State:
         self.choice_log.append((label, first))
         g = alts[first]
         if not isinstance(g, bool):
-            self.assume(g)
+            self._decide(g)
         return first
+
+    def _decide(self, g):
+        self.pc.append(g)
+        self.solver.add(g)
 
     def branch(self, cond, label=''):
         """cond: python bool, SymB or z3 Bool -> python bool (forks when undetermined)"""
@@ -420,5 +437,6 @@ def explore(run_path, base_axioms, max_paths=4000, budget_s=600):
             results.append(PathResult(st, 'infeasible'))
         except Unsupported as u:
             results.append(PathResult(st, 'unsupported', error=str(u)))
+            break       # the function is undecided anyway: do not enumerate further paths
         work.extend(st.pending)
     return results
